@@ -6,6 +6,7 @@ import OAP.Model.Client.CloseSlice
 import OAP.Model.Client.Quartet
 import OAP.Gen.Facts
 import OAP.Model.Client.Recovery
+import OAP.Model.Client.ConnThreads
 namespace OAP.C14
 open OAP
 
@@ -57,5 +58,31 @@ theorem recovery_hitmax_closes (m : Nat) (acts : List Recovery.Act) (s : Recover
     (∀ t, s.rc t = .fin .hitmax → s.closedSig = true ∧ s.onCloseCalls = 1) ∧
     (0 < s.hitmaxExits → s.closedSig = true ∧ s.onCloseCalls = 1) :=
   Recovery.hitmax_closes m acts s h
+
+/-! ### the connection's own Close (view ConnThreads: reader, writer, dispatcher of one connection and any number of
+concurrent callers of `conn.Close`) -/
+
+/-- `conn.Close` is idempotent and safe from any goroutine: whoever calls it — the reader on a read error, the writer
+on a write error, any number of other goroutines, more than once, at the same time — closeCh is closed at most once (a
+second close would panic), the socket at most once, the close callbacks run at most once; a completed Close has done
+all three -/
+theorem close_idempotent_conn (cfg : ConnThreads.Cfg) (acts : List ConnThreads.Act) (s : ConnThreads.St)
+    (h : ConnThreads.run cfg (ConnThreads.init cfg) acts = some s) :
+    s.sigCloses ≤ 1 ∧ s.sockCloses ≤ 1 ∧ s.closeCallbacks ≤ 1 ∧
+    (s.once = .done → s.sigCloses = 1 ∧ s.sockCloses = 1 ∧ s.closeCallbacks = 1) :=
+  have c := ConnThreads.close_once cfg acts s h
+  ⟨c.1, c.2.1, c.2.2.1, c.2.2.2.2.2.2.2.2.2⟩
+
+/-- a `conn.Close` call never blocks for ever: in every reachable state a caller inside Close has an enabled step of
+its own, or waits at the Once for the goroutine inside the body — whose next operation is always enabled; a call made
+after the signal (also from inside the close callbacks or a packet handler) returns at its `closed()` test -/
+theorem close_conn_never_blocks (cfg : ConnThreads.Cfg) (acts : List ConnThreads.Act) (s : ConnThreads.St)
+    (h : ConnThreads.run cfg (ConnThreads.init cfg) acts = some s) (i : Nat) (hx : s.ext i ≠ .idle) :
+    ((ConnThreads.step cfg s (.xCloseTest i)).isSome = true ∨ (ConnThreads.step cfg s (.xCloseOnce i)).isSome = true ∨
+      ((s.ext i = .close .once ∨ s.ext i = .close .body) ∧ (ConnThreads.step cfg s .body).isSome = true)) ∧
+    (s.ext i = .close .test → s.closeSig = true →
+      ConnThreads.step cfg s (.xCloseTest i) =
+        some { s with ext := ConnThreads.upd s.ext i .idle, closeReturns := s.closeReturns + 1 }) :=
+  ⟨ConnThreads.close_call_can_step cfg acts s h i hx, ConnThreads.close_after_signal_returns cfg s i⟩
 
 end OAP.C14
